@@ -85,7 +85,7 @@ Section Main.
     intros [l|] [fl|] st VS G H D; unfold do_allOf, OGood, OLGood in *; try contradiction; cbn [optb optP].
     - destruct (allOf_loop fl (st_A st)) as [rs A'] eqn:E.
       rewrite dev_dev_if in D. apply app_eq_nil in D. destruct D as [D _].
-      destruct (dev_step_allOf _ _ _ _ D) as (_ & D2 & D3 & D4).
+      destruct (dev_step_allOf _ _ _ _ D) as (_ & D2 & D3).
       pose proof (allOf_loop_run _ _ G _ _ _ E D2) as R.
       eapply inv_sem_eq; [apply sem_eq_dev_if|].
       rewrite (lgood_len _ _ G) in *. apply inv_step_allOf; auto.
@@ -203,8 +203,7 @@ Section Main.
     intros [[b|a p]|] [f|] st VS H; simpl; auto; try (apply inv_set_obj; exact H).
     unfold step_addl_schema.
     assert (H' : Inv T (absorb (f mall) st) VS) by (eapply inv_sem_eq; [apply sem_eq_absorb | exact H]).
-    destruct (ob_no_elts (the_obj (absorb (f mall) st))); apply inv_set_obj; auto.
-    eapply inv_sem_eq; [apply sem_eq_dev_if | exact H'].
+    destruct (ob_no_elts (the_obj (absorb (f mall) st))); apply inv_set_obj; exact H'.
   Qed.
 
   Lemma do_items_dev : forall o st, st_dev (do_items o st) = [] -> st_dev st = [].
@@ -227,12 +226,8 @@ Section Main.
     eapply inv_sem_eq; [apply sem_eq_set_bad | exact H].
   Qed.
 
-  Lemma phase1_dev : forall a st, st_dev (phase1 re a st) = [] -> st_dev st = [] /\ type_nodev a.
-  Proof.
-    intros a st H. rewrite dev_phase1 in H. apply app_eq_nil in H. destruct H as [H1 H2]. split; auto.
-    unfold type_nodev. destruct (a_type a); auto.
-    destruct (has_ty TyInteger l && has_ty TyNumber l); [discriminate | reflexivity].
-  Qed.
+  Lemma phase1_dev : forall a st, st_dev (phase1 re a st) = [] -> st_dev st = [].
+  Proof. intros a st H. rewrite dev_phase1 in H. exact H. Qed.
 
   (* ---------- the struct literal as a whole ---------- *)
   Lemma forallb_andb : forall {X} (f g : X -> bool) l, forallb (fun x => f x && g x) l = forallb f l && forallb g l.
@@ -320,8 +315,6 @@ Section Main.
     (* additionalProperties: a schema *)
     Lemma struct_addl : forall s' e m,
       (forall x, ev e x = valid re s' x) ->
-      (fields0 rp = [] /\ rpp = []) \/
-      (mem_str [] (map f_name (fields0 rp)) = false /\ filter (fun n => negb (str_eqb n [])) (map f_name (fields0 rp)) <> []) ->
       struct_ok re (mkO (req_fold req (fields0 rp)) rpp
                         (Some (match fields0 rp, rpp with
                                | [], [] => AddlAll e
@@ -329,21 +322,17 @@ Section Main.
                                end)) AllFieldsCovered) m =
       sp_props m && sp_pprops m && forallb (fun kv => negb (is_add (fst kv)) || valid re s' (snd kv)) m && sp_req m.
     Proof.
-      intros s' e m He Hcase. rewrite struct_common. rewrite (forallb_true m), andb_true_r. f_equal. f_equal.
+      intros s' e m He. rewrite struct_common. rewrite (forallb_true m), andb_true_r. f_equal. f_equal.
       apply forallb_ext'. intros [k v]. cbn [fst snd]. unfold is_add.
-      destruct Hcase as [[E1 E2] | [N1 N2]].
-      - rewrite E1, E2. simpl. rewrite He.
-        assert (lp = []) by (destruct Hp; [reflexivity | discriminate]).
-        assert (lpp = []) by (destruct Hpp; [reflexivity | congruence]). subst. reflexivity.
-      - assert (Eadd : addl_applies re (match fields0 rp, rpp with
+      assert (Eadd : addl_applies re (match fields0 rp, rpp with
                                | [], [] => AddlAll e
                                | _, _ => AddlExcept (map fst rpp) (map f_name (fields0 rp)) e
                                end) k =
-                       if negb (existsb (fun pe => re (fst pe) k) rpp) && negb (mem_str k (map f_name (fields0 rp))) then Some e else None).
-        { destruct (fields0 rp) as [|f0 fr] eqn:Ef; [exfalso; apply N2; reflexivity|].
-          unfold addl_applies. rewrite pats_map_fst. rewrite (excluded_plain _ k N1 N2). reflexivity. }
-        rewrite Eadd. rewrite mem_str_names, (fields0_names lp (valid re) rp k Hp), (pats_names re lpp (valid re) rpp k Hpp).
-        rewrite andb_comm. destruct (negb (has_key k lp) && negb (existsb (fun ps => re (fst ps) k) lpp)); simpl; auto.
+                     if negb (existsb (fun pe => re (fst pe) k) rpp) && negb (mem_str k (map f_name (fields0 rp))) then Some e else None).
+      { destruct (fields0 rp) as [|f0 fr] eqn:Ef; destruct rpp as [|p0 pr] eqn:Ep; try reflexivity;
+          unfold addl_applies, excluded_by_names; rewrite pats_map_fst; reflexivity. }
+      rewrite Eadd. rewrite mem_str_names, (fields0_names lp (valid re) rp k Hp), (pats_names re lpp (valid re) rpp k Hpp).
+      rewrite andb_comm. destruct (negb (has_key k lp) && negb (existsb (fun ps => re (fst ps) k) lpp)); simpl; auto.
     Qed.
   End Struct.
 
@@ -498,10 +487,6 @@ Section Thm.
     Forall2 (fun ks kr => fst ks = fst kr /\ forall x, ev (snd kr) x = valid re (snd ks) x) (olist (ap_props p)) rp ->
     Forall2 (fun ps pr => fst ps = fst pr /\ forall x, ev (snd pr) x = valid re (snd ps) x) (olist (ap_pprops p)) rpp ->
     (forall s', ap_addl p = Some s' -> forall x, ev e x = valid re s' x) ->
-    (* no deviation: empty property names *)
-    (forall aa pa, ap_addl p = Some (SObj aa pa) ->
-       ob_no_elts (mkO (fields0 rp) rpp None ImplicitlyOpen) = false ->
-       addl_dev_cond (mkO (fields0 rp) rpp None ImplicitlyOpen) = false) ->
     (* no deviation: required names of a closed struct *)
     (ap_addl p = Some (SBool false) ->
        forall k, In k (olist (a_required a)) -> existsb (fun f => str_eqb k (f_name f)) (fields0 rp) = true) ->
@@ -510,7 +495,7 @@ Section Thm.
      v_addl re (valid re) p (JObj m) = true /\
      optP (fun req => on_obj (fun m => forallb (fun k => has_key k m) req) (JObj m) = true) (a_required a)).
   Proof.
-    intros a p rp rpp e m Hp Hpp He Hd1 Hd2.
+    intros a p rp rpp e m Hp Hpp He Hd2.
     set (lp := olist (ap_props p)) in *. set (lpp := olist (ap_pprops p)) in *. set (req := olist (a_required a)) in *.
     assert (Vp : v_props (valid re) p (JObj m) = sp_props re lp m).
     { unfold v_props, sp_props, lp. destruct (ap_props p); simpl; auto. symmetry. apply forallb_true. }
@@ -534,20 +519,12 @@ Section Thm.
           rewrite Va, !andb_true_iff. tauto.
         * intros k Hin. rewrite <- (fields0_names lp (valid re) rp k Hp). apply Hd2; auto.
     - (* schema *)
-      assert (Hcase : (fields0 rp = [] /\ rpp = []) \/
-                      (mem_str [] (map f_name (fields0 rp)) = false /\
-                       filter (fun n => negb (str_eqb n [])) (map f_name (fields0 rp)) <> [])).
-      { destruct (ob_no_elts (mkO (fields0 rp) rpp None ImplicitlyOpen)) eqn:En.
-        - left. unfold ob_no_elts in En. simpl in En. destruct (fields0 rp); [|discriminate]. destruct rpp; [auto|discriminate].
-        - right. pose proof (Hd1 aa pa eq_refl eq_refl) as X. unfold addl_dev_cond in X. simpl in X.
-          apply orb_false_iff in X. destruct X as [X1 X2]. split; auto.
-          destruct (filter (fun n => negb (str_eqb n [])) (map f_name (fields0 rp))); [discriminate|discriminate]. }
       assert (Eform : (if ob_no_elts (mkO (fields0 rp) rpp None ImplicitlyOpen) then AddlAll e
                        else AddlExcept (map fst rpp) (map f_name (fields0 rp)) e) =
                       match fields0 rp, rpp with [], [] => AddlAll e | _, _ => AddlExcept (map fst rpp) (map f_name (fields0 rp)) e end).
       { unfold ob_no_elts. simpl. destruct (fields0 rp), rpp; reflexivity. }
       rewrite Eform.
-      rewrite (struct_addl re lp lpp rp rpp Hp Hpp req (SObj aa pa) e m (He _ eq_refl) Hcase).
+      rewrite (struct_addl re lp lpp rp rpp Hp Hpp req (SObj aa pa) e m (He _ eq_refl)).
       assert (Va : v_addl re (valid re) p (JObj m) =
                    forallb (fun kv => negb (is_add re lp lpp (fst kv)) || valid re (SObj aa pa) (snd kv)) m).
       { unfold v_addl. rewrite Ead. cbn [optb on_obj]. apply forallb_ext'. intros kv. rewrite is_additional_norm. reflexivity. }
@@ -612,10 +589,10 @@ Section Thm.
     pose proof (do_anyOf_dev _ _ D3) as D2. fold s2 in D2.
     pose proof (do_allOf_dev _ _ D2) as D1. fold s1 in D1.
     pose proof (do_ref_dev _ _ D1) as D0. fold s0 in D0.
-    destruct (phase1_dev re _ _ D0) as [_ Hty].
+
     destruct IH as (I_ref & I_all & I_any & I_one & I_not & I_if & I_then & I_else & I_props & I_pprops &
                     I_pn & I_pre & I_con & I_addl & I_items).
-    pose proof (inv_phase1 re M a Hty) as H0. fold s0 in H0.
+    pose proof (inv_phase1 re M a) as H0. fold s0 in H0.
     pose proof (do_ref_inv re M (ap_ref p) (ap_ref p') s0 _ (ogood_map re _ I_ref) H0 D1) as H1. fold s1 in H1.
     pose proof (do_allOf_inv re M (ap_allOf p) (ap_allOf p') s1 _ (olgood_map re _ I_all) H1 D2) as H2. fold s2 in H2.
     pose proof (do_anyOf_inv re M (ap_anyOf p) (ap_anyOf p') s2 _ (olgood_map re _ I_any) H2 D3) as H3. fold s3 in H3.
@@ -685,14 +662,8 @@ Section Thm.
         + apply (g_ev _ _ _ _ (good_bool re b mall) x eq_refl).
         + assert (X : st_dev s12 = []) by exact D12. unfold s12, p' in X. cbn [amap ap_addl] in X. rewrite Es' in X.
           cbn [option_map do_addl] in X. rewrite dev_step_addl_schema in X.
-          apply app_eq_nil in X. destruct X as [_ X]. apply app_eq_nil in X. destruct X as [X _].
+          apply app_eq_nil in X. destruct X as [_ X].
           rewrite Es' in I_addl. simpl in I_addl. apply (g_ev _ _ _ _ (I_addl mall X) x eq_refl).
-      - (* no deviation: empty names *)
-        intros aa pa Es' Hno.
-        assert (X : st_dev s12 = []) by exact D12. unfold s12, p' in X. cbn [amap ap_addl] in X. rewrite Es' in X.
-        cbn [option_map do_addl] in X. rewrite dev_step_addl_schema in X.
-        apply app_eq_nil in X. destruct X as [_ X]. apply app_eq_nil in X. destruct X as [_ X].
-        rewrite O11, Hno in X. destruct (addl_dev_cond (mkO (fields0 rp) rpp None ImplicitlyOpen)); [discriminate | reflexivity].
       - (* no deviation: required names of a closed struct *)
         intros Es' k Hin. destruct (a_required a) as [req|] eqn:Er; [|destruct Hin].
         assert (X : st_dev s14 = []) by exact D14. unfold s14 in X. try rewrite Er in X. cbn [opt_step] in X.
